@@ -15,15 +15,34 @@ def gen_case(rng, depth):
     t = G.gen_type(rng, rng.randint(1, depth), allow_refs=with_refs)
     v = G.gen_value(rng, t)
     k = t["k"]
+    if with_refs and rng.random() < 0.3:
+        # two union types listing the SAME member types in different orders, both used in one object
+        F64 = {"k": "scalar", "name": "Float64"}; I64 = {"k": "scalar", "name": "Int64"}
+        fa = [["x", F64]]; fb = [["p", I64], ["q", I64]]
+        A = {"k": "struct", "name": G.struct_name(fa), "fields": fa}; B = {"k": "struct", "name": G.struct_name(fb), "fields": fb}
+        U1 = {"k": "union", "name": "U" + hashlib.sha1(json.dumps([A, B], sort_keys=True).encode()).hexdigest()[:8], "members": [A, B]}
+        U2 = {"k": "union", "name": "U" + hashlib.sha1(json.dumps([B, A], sort_keys=True).encode()).hexdigest()[:8], "members": [B, A]}
+        fields = [["u1", U1], ["u2", U2], ["rest", t]]
+        m = rng.choice([A, B])
+        mv = G.gen_value(rng, m)
+        v = {"f": [{"m": [A, B].index(m), "v": mv}, {"m": [B, A].index(m), "v": G.gen_value(rng, m)}, v]}
+        t = {"k": "struct", "name": G.struct_name(fields), "fields": fields}
     if with_refs and (G.has_kind(t, "ref") or G.has_kind(t, "union")):
         # objects holding references: built from plain data (the referents are created next to them)
         al = rng.choice([1, 2, 4, 8, 8, 8, 16, 32, 64])
         pre = []
         for _ in range(rng.choice([0, 0, 1, 3])):
             pre.append(["alloc", rng.choice([1, 8, 16, 24, 40, 100])] if rng.random() < 0.65 else ["free", rng.randint(0, 5)])
-        return {"type": t, "value": v, "form": "py", "refs": True, "xobj_other_buffer": True,
-                "prep": {"kind": rng.choice(["numpy", "bytearray"]), "cap": rng.choice([0, 64, 256, 1024, 4096]), "al": al, "poison": rng.choice([0xA5, 0xFF, 0x01]), "pre": pre},
-                "placement": rng.choice([["default"], ["default"], ["aligned"], ["packed"]])}
+        cr = {"type": t, "value": v, "form": "py", "refs": True, "xobj_other_buffer": True,
+              "prep": {"kind": rng.choice(["numpy", "bytearray"]), "cap": rng.choice([0, 64, 256, 1024, 4096]), "al": al, "poison": rng.choice([0xA5, 0xFF, 0x01]), "pre": pre},
+              "placement": rng.choice([["default"], ["default"], ["aligned"], ["packed"]])}
+        if rng.random() < 0.35:
+            # the object itself just fits the END of the buffer while a small hole lies before it: the referents it
+            # creates then make the buffer grow in the middle of the construction
+            cr["prep"] = {"kind": cr["prep"]["kind"], "cap": 256, "al": 8, "poison": cr["prep"]["poison"], "pre": [["alloc", 8], ["alloc", 40], ["free", 0]],
+                          "tail_left": own_size({"type": t, "value": v})}
+            cr["placement"] = ["default"]
+        return cr
     if k == "string":
         form = rng.choice(["py", "py", "cap", "xobj"])
     elif k == "struct":
@@ -106,6 +125,13 @@ def systematic_cases(rng):
                                                                {"f": [[5, 0, 0, 0, 0, 0, 0, 0], v]})
                             out.append({"type": tt, "value": vv, "form": form, "prep": dict(prep, kind=rng.choice(["numpy", "bytearray"])),
                                         "placement": ["default"], "xobj_other_buffer": rng.random() < 0.5})
+    for t, dims in (({"k": "array", "item": {"k": "scalar", "name": "Float64"}, "shape": [40], "order": [0]}, [40]),
+                    ({"k": "array", "item": {"k": "scalar", "name": "Int32"}, "shape": [None, 3, 3], "order": [0, 1, 2]}, [5, 3, 3])):
+        n = 1
+        for d in dims: n *= d
+        isz = 8 if t["item"]["name"] == "Float64" else 4
+        v = {"shape": list(dims), "items": [[(3 * i + 1) & 255] + [0] * (isz - 1) for i in range(n)]}
+        out.append({"type": t, "value": v, "form": "py", "prep": dict(prep), "placement": ["default"], "xobj_other_buffer": False})
     return out
 
 
@@ -177,6 +203,28 @@ def has_spare_capacity(v):
     return False
 
 
+def own_size(c):
+    """bytes of the object itself (reference slots counted, referents not)"""
+    def sz(t, v):
+        k = t["k"]
+        if k == "scalar": return G.SIZE[t["name"]] if hasattr(G, "SIZE") else len(v)
+        if k == "string": return v["size"]
+        if k == "ref": return 8
+        if k == "union": return 16
+        if k == "struct":
+            parts = [G.slot(sz(ft, fv)) for (_, ft), fv in zip(t["fields"], v["f"])]
+            ndyn = sum(1 for _, ft in t["fields"] if not G.is_static(ft))
+            return sum(parts) + (8 + 8 * (ndyn - 1) if ndyn else 0)
+        if k == "array":
+            st = G.is_static(t["item"]); nd = sum(1 for d in t["shape"] if d is None)
+            hdr = (0 if st and nd == 0 else 8) + 8 * nd + (8 * len(t["shape"]) if nd > 0 and len(t["shape"]) > 1 else 0)
+            if st:
+                isz = sz(t["item"], v["items"][0]) if v["items"] else 0
+                return G.slot(hdr + isz * len(v["items"]))
+            return hdr + 8 * len(v["items"]) + sum(G.slot(sz(t["item"], x)) for x in v["items"])
+    return G.slot(sz(c["type"], c["value"]))
+
+
 def expected_readback(c):
     return G.strip_sizes(c["value"])
 
@@ -209,6 +257,9 @@ def judge(pid, c, r, coq_code):
             return ("C01/readback-raises-%s/%s/%s" % (r["readback_exc"], form, st), "reading back raised %s" % r.get("readback_msg"))
         if G.strip_sizes(r["readback"]) != exp:
             return ("C01/readback-differs/%s/%s" % (form, st), "value read back differs from the value constructed")
+        if r.get("npidx_bad"):
+            b0 = r["npidx_bad"][0]
+            return ("C01/item-read-with-numpy-integer-index-differs/%s" % b0[1], "index %s given as %s: %s" % (b0[0], b0[1], b0[2]))
         if "nparray_exc" in r:
             return ("C01/to_nparray-raises-%s/%s" % (r["nparray_exc"], st), "to_nparray raised %s" % r.get("nparray_msg"))
         if "nparray" in r and (r["nparray"]["shape"] != c["value"]["shape"] or r["nparray"]["items"] != c["value"]["items"]):
@@ -308,6 +359,13 @@ def run(ctx):
         import c_refs
         rb = c_refs.BUDGET[ctx.tier]
         extra, refcov = c_refs.c06_histories(ctx, max(60, rb["n"] // 2), rb["nops"], rb["shards"])
+        for sig, what, rep in extra:
+            found = True
+            report(ctx, sig, what, rep)
+    if pid == "C06":
+        import c_update
+        extra, pccov = c_update.c09_part_copies(ctx, max(120, c_update.BUDGET[ctx.tier]["n"] // 3), 3, c_update.BUDGET[ctx.tier]["shards"], pid="C06")
+        refcov = dict(refcov or {}); refcov.update(pccov)
         for sig, what, rep in extra:
             found = True
             report(ctx, sig, what, rep)
